@@ -6,6 +6,7 @@ import (
 	"strings"
 
 	"github.com/jf-tech/omniparser"
+	"github.com/jf-tech/omniparser/idr"
 
 	"verif/mc/core"
 	"verif/mc/hx"
@@ -26,6 +27,10 @@ type c14Scenario struct {
 	Schemas []string          `json:"schemas"`
 	Threads []c14Thread       `json:"threads"`
 	Ext     map[string]string `json:"externals,omitempty"`
+	// NavSteps adds a scheduling point at every xpath navigator move (child / next / parent / attribute),
+	// so that state shared through a compiled xpath expression is interleaved mid-query.
+	NavSteps bool `json:"nav_steps,omitempty"`
+	Bound    int  `json:"bound,omitempty"` // preemption bound override
 }
 
 type c14Case struct {
@@ -90,6 +95,29 @@ func c14Scenarios(quick bool) []c14Scenario {
 		{Name: "argument-leak-probe-shared-schema", Schemas: []string{job["js-argument-leak-probe"].Schema}, Threads: []c14Thread{
 			{Kind: "transform", Schema: 0, Input: `[{"x":"1","k":"a"},{"x":"boom","k":"b"}]`}, {Kind: "transform", Schema: 0, Input: `[{"x":"boom","k":"c"},{"x":"4","k":"d"}]`}}},
 	}
+	// multi-line envelopes of the old fixed-length reader (per-envelope bookkeeping while lines are read)
+	flRows := `{` + c10Hdr("fixed-length") + `,"file_declaration":{"envelopes":[{"by_rows":2,"columns":[{"name":"N","start_pos":1,"length":2},{"name":"J","start_pos":1,"length":1,"line_pattern":"^[a-z]"}]}]},"transform_declarations":{"FINAL_OUTPUT":{"object":{"n":{"xpath":"N","type":"int"},"j":{"xpath":"J"}}}}}`
+	flHF := `{` + c10Hdr("fixed-length") + `,"file_declaration":{"envelopes":[{"name":"E","by_header_footer":{"header":"^H","footer":"^F"},"columns":[{"name":"N","start_pos":2,"length":2},{"name":"J","start_pos":1,"length":1,"line_pattern":"^[a-z]"}]}]},"transform_declarations":{"FINAL_OUTPUT":{"object":{"n":{"xpath":"N","type":"int"},"j":{"xpath":"J"}}}}}`
+	sc = append(sc,
+		c14Scenario{Name: "fixed-length-by-rows-shared-schema", Schemas: []string{flRows}, Threads: []c14Thread{
+			{Kind: "transform", Schema: 0, Input: "11\nab\n22\ncd\n"}, {Kind: "transform", Schema: 0, Input: "33\nef\n"}}},
+		c14Scenario{Name: "fixed-length-header-footer-shared-schema", Schemas: []string{flHF}, Threads: []c14Thread{
+			{Kind: "transform", Schema: 0, Input: "H11\nab\nF\n"}, {Kind: "transform", Schema: 0, Input: "H22\ncd\nF\nH33\nef\nF\n"}}},
+	)
+	// scheduling points inside xpath evaluation: record filters and field queries on a shared schema
+	navCsv := `{` + c10Hdr("csv") + `,"file_declaration":{"delimiter":",","data_row_index":1,"columns":[{"name":"N"},{"name":"J"}]},"transform_declarations":{"FINAL_OUTPUT":{"xpath":".[N!='0' and J!='z']","object":{"n":{"xpath":"N","type":"int"},"j":{"xpath":"J[.!='q']"}}}}}`
+	navEdi := `{` + c10Hdr("edi") + `,"file_declaration":{"segment_delimiter":"~","element_delimiter":"*","segment_declarations":[{"name":"A","is_target":true,"min":0,"max":-1,"elements":[{"name":"N","index":1},{"name":"J","index":2}]}]},"transform_declarations":{"FINAL_OUTPUT":{"xpath":".[N!='0' and J!='z']","object":{"n":{"xpath":"N","type":"int"},"j":{"xpath":"J"}}}}}`
+	navXML := `{` + c10Hdr("xml") + `,"transform_declarations":{"FINAL_OUTPUT":{"xpath":"/r/o[N!='0' and J!='z']","object":{"n":{"xpath":"N","type":"int"},"j":{"xpath":"J"},"h":{"xpath":"../h"}}}}}`
+	sc = append(sc,
+		c14Scenario{Name: "navsteps-csv-record-filter", NavSteps: true, Bound: 1, Schemas: []string{navCsv}, Threads: []c14Thread{
+			{Kind: "transform", Schema: 0, Input: "1,a\n0,b\n"}, {Kind: "transform", Schema: 0, Input: "0,c\n2,z\n3,d\n"}}},
+		c14Scenario{Name: "navsteps-csv-boolean-record-filter", NavSteps: true, Bound: 1, Schemas: []string{strings.Replace(navCsv, `".[N!='0' and J!='z']"`, `"N!='0' and J!='z'"`, 1)}, Threads: []c14Thread{
+			{Kind: "transform", Schema: 0, Input: "1,a\n0,b\n"}, {Kind: "transform", Schema: 0, Input: "0,c\n2,z\n3,d\n"}}},
+		c14Scenario{Name: "navsteps-edi-record-filter", NavSteps: true, Bound: 1, Schemas: []string{navEdi}, Threads: []c14Thread{
+			{Kind: "transform", Schema: 0, Input: "A*1*a~A*0*b~"}, {Kind: "transform", Schema: 0, Input: "A*0*c~A*3*d~"}}},
+		c14Scenario{Name: "navsteps-xml-stream-filter", NavSteps: true, Bound: 1, Schemas: []string{navXML}, Threads: []c14Thread{
+			{Kind: "transform", Schema: 0, Input: "<r><h>H</h><o><N>1</N><J>a</J></o><o><N>0</N><J>b</J></o></r>"}, {Kind: "transform", Schema: 0, Input: "<r><h>I</h><o><N>2</N><J>z</J></o><o><N>3</N><J>d</J></o></r>"}}},
+	)
 	if !quick {
 		x := f["xml"]
 		sc = append(sc,
@@ -130,6 +158,13 @@ func c14Run(sc c14Scenario, x *core.Exec) (results []string, panics string, dead
 	for i, th := range sc.Threads {
 		i, th := i, th
 		bodies = append(bodies, func() { results[i] = c14Solo(schemas[th.Schema], th, sc.Schemas[th.Schema]) })
+	}
+	if sc.NavSteps {
+		if !idr.VerifNavStepsInstalled {
+			return nil, "", false, "navigator scheduling points could not be installed by the overlay"
+		}
+		idr.VerifNavStep = vsync.Yield
+		defer func() { idr.VerifNavStep = nil }()
 	}
 	ps, dl := vsync.RunThreads(x.Choose, bodies)
 	for _, p := range ps {
@@ -201,8 +236,14 @@ func init() {
 					continue
 				}
 				b := bound
-				if !c.Quick() && len(sc.Threads) == 2 && (si == 1 || si == 7 || si == 8) {
-					b = 3 // three preemptions for the scenarios richest in shared state (json, context-on-ancestor, argument-leak probe)
+				if !c.Quick() && len(sc.Threads) == 2 && (sc.Name == "json-shared-schema" || sc.Name == "context-on-ancestor-shared-schema" || sc.Name == "argument-leak-probe-shared-schema") {
+					b = 3 // three preemptions for the scenarios richest in shared state
+				}
+				if sc.Bound > 0 {
+					b = sc.Bound
+					if !c.Quick() {
+						b++
+					}
 				}
 				var sig, detail string
 				var pts int
@@ -280,4 +321,8 @@ func init() {
 			return sig, detail
 		},
 	})
+}
+
+func c10Hdr(f string) string {
+	return `"parser_settings":{"version":"omni.2.1","file_format_type":"` + f + `"}`
 }
